@@ -4,6 +4,7 @@ import json, os, glob
 ROOT = '/verif/seeded'
 res = json.load(open(ROOT + '/RESULTS.json'))
 rows = []
+sup = set(os.path.basename(d) for d in glob.glob(ROOT + '/C*') if json.load(open(d + '/meta.json')).get('superseded_by'))
 for d in sorted(glob.glob(ROOT + '/C*')):
     n = os.path.basename(d)
     m = json.load(open(d + '/meta.json'))
@@ -15,14 +16,18 @@ for d in sorted(glob.glob(ROOT + '/C*')):
         key = k[0][:110].replace('|', '/')
     summ = ' '.join(str(m.get('summary', '')).split())[:160].replace('|', '/')
     need = ' '.join(str(m.get('needs', '')).split())[:140].replace('|', '/')
-    rows.append('| %s | %s | %s | %s | %s |' % (n, m.get('property'), summ, need,
-                                               (', '.join(caught) + ': ' + key) if caught else '**not detected**'))
+    if m.get('superseded_by'):
+        verdict = 'superseded: ' + ' '.join(m['superseded_by'].split())[:200].replace('|', '/')
+    else:
+        verdict = (', '.join(caught) + ': ' + key) if caught else '**not detected**'
+    rows.append('| %s | %s | %s | %s | %s |' % (n, m.get('property'), summ, need, verdict))
 out = ['# Seeded changes', '',
        'Independent sub-agents (given only the property text and a scratch worktree) wrote these changes; each keeps the',
        'repository suite green and breaks its property only under specific conditions.  `tools/verify_seed.sh` confirmed each',
        '(applies, suite unchanged, demo fails with / passes without); `tools/run_seeds.py` applies each in a scratch clone and',
-       'runs the quick check of its property (results in RESULTS.json, %d of %d detected).' % (
-           sum(1 for r in res.values() if r.get('detected')), len(res)), '',
+       ('runs the quick check(s) named in its meta.json (results in RESULTS.json: %d of %d live seeds detected; %d superseded by a '
+        'later repair of /repo - they no longer apply or no longer change behaviour).') % (
+           sum(1 for n, r in res.items() if r.get('detected') and n not in sup), len([n for n in res if n not in sup]), len(sup)), '',
        '| seed | property | change | needs | caught by: first divergence reported |', '|---|---|---|---|---|'] + rows
 open(ROOT + '/README.md', 'w').write('\n'.join(out) + '\n')
 print(len(rows), 'rows')
